@@ -193,11 +193,13 @@ def build(recipe):
         if len(names) < 2:
             return base, recipe.get("ann_model")
         first = names[0]
+        # (an assembly file may already hold a chain "A-2": the new name must be new, or two residues share one identity)
+        longer = next(first + sfx for sfx in ("-2", "-3", "-4", "-5", "-9", "-2x") if first + sfx not in names)
 
         def ren(ri, r):
             au = r.auth
             if au is not None and au.chain == first:
-                au = ResidueAuth(first + "-2", au.number, au.icode, au.name)
+                au = ResidueAuth(longer, au.number, au.icode, au.name)
             return (r.label, au)
         return _rebuild(base, relabel=ren), recipe.get("ann_model")
     if v == "icode":
